@@ -100,6 +100,9 @@ pub fn run(ctx: &Ctx) {
     let io = InOpts { heavy: true, wide_bias: true, ..Default::default() };
     ctx.search("heavy", 16, per, &|| stream_case_strategy(co, io, false).prop_map(lowp), check);
     ctx.search("general", 16, per / 2, &|| stream_case_strategy(co, InOpts::default(), false), check);
+    if ctx.tier == crate::core::Tier::Thorough {
+        crate::fuzzrun::campaign(ctx, "fz_encode", 8, crate::fuzzrun::runs(30_000), 24_000);
+    }
 }
 
 use proptest::strategy::Strategy;
